@@ -23,11 +23,18 @@ unsigned case_timeout_s() { return 1800; }
 // reset(), then used.
 // hll8_large_lgk: HLL_8 sketches of lg_k 16 (thorough also 17) with n = 11k, beyond the last point of the composite interpolation
 // table (10k): published errors of 0.3-0.4% make a small relative bias of HIP or composite estimate visible with few trials.
-enum Fam { F_HLL4, F_HLL6, F_HLL8, F_HLL_UNION, F_HLL_UNION_MIXED, F_RAW, F_HLL_REUSE = F_RAW + 9, F_HLL_UNION_REUSE, F_HLL8_LARGE, F_N };
+enum Fam { F_HLL4, F_HLL6, F_HLL8, F_HLL_UNION, F_HLL_UNION_MIXED, F_RAW, F_HLL_REUSE = F_RAW + 9, F_HLL_UNION_REUSE, F_HLL8_LARGE,
+           F_SETSRC_ALONE, F_SETSRC_AFTER_RAW, F_SETSRC_INTO_HLL_GADGET, F_SETSRC_THEN_RAW, F_ROLLUP, F_N };
+// hll_union_set_source_*: a source of lg_k 20/21 that is still in SET mode (16k..64k coupons, below its own promotion point) is fed
+//   into a union of lg_max_k 12 / 15, whose gadget is promoted to HLL mode during the feed: alone / after 20 raw items (gadget in
+//   LIST mode) / into a gadget already in HLL mode through raw items (even trials) or an HLL-mode sketch (odd trials) / followed by
+//   raw items.  hll_union_rollup: the result of a finer union (lg_k + 2, out of order, HLL mode) is fed into a union of lg_max_k =
+//   lg_k whose gadget is empty / in LIST mode / in SET mode / in HLL mode (trial mod 4); result types rotate.
 static const char* FAM_NAME[] = {"hll4", "hll6", "hll8", "hll_union", "hll_union_mixed_lgk",
   "hll_union_sketch_raw_finer", "hll_union_sketch_raw_equal", "hll_union_sketch_raw_coarser",
   "hll_union_raw_sketch_finer", "hll_union_raw_sketch_equal", "hll_union_raw_sketch_coarser",
-  "hll_union_sketch_raw_sketch_finer", "hll_union_sketch_raw_sketch_equal", "hll_union_sketch_raw_sketch_coarser", "hll_reuse", "hll_union_reuse", "hll8_large_lgk"};
+  "hll_union_sketch_raw_sketch_finer", "hll_union_sketch_raw_sketch_equal", "hll_union_sketch_raw_sketch_coarser", "hll_reuse", "hll_union_reuse", "hll8_large_lgk",
+  "hll_union_set_source_alone", "hll_union_set_source_after_raw", "hll_union_set_source_into_hll_gadget", "hll_union_set_source_then_raw", "hll_union_rollup"};
 static const target_hll_type TYPES[] = {HLL_4, HLL_6, HLL_8};
 
 static std::vector<Cell> build_cells(bool thorough) {
@@ -46,6 +53,18 @@ static std::vector<Cell> build_cells(bool thorough) {
     Cell x; x.fam = F_HLL8_LARGE; x.lg_k = 16; x.mi = 8; x.trials = thorough ? 400 : 200; x.n = 11ULL << 16; x.cost = static_cast<double>(x.n) * x.trials; cells.push_back(x);
     if (thorough) { x.lg_k = 17; x.trials = 200; x.n = 11ULL << 17; x.cost = static_cast<double>(x.n) * x.trials; cells.push_back(x); }
   }
+  // calibration on the pre-fix tree (8ab3d74): the HIP bias of a gadget promoted during the feed is largest shortly after the
+  // promotion point (+1.4% at lg_max_k 15, n = 16384 = 5x the promotion point; +0.3% at n = 65536; invisible at lg_max_k 12)
+  for (int f = F_SETSRC_ALONE; f <= F_SETSRC_THEN_RAW; ++f) {
+    Cell x; x.fam = f; x.lg_k = 15; x.mi = 0; x.trials = thorough ? 800 : 200; x.n = 16384; x.cost = 1.5 * static_cast<double>(x.n) * x.trials; cells.push_back(x);
+    if (f <= F_SETSRC_AFTER_RAW || thorough) { x.lg_k = 17; x.trials = thorough ? 400 : 100; x.n = 49152; x.cost = 1.5 * static_cast<double>(x.n) * x.trials; cells.push_back(x); }
+    if (thorough) { x.lg_k = 12; x.trials = 600; x.n = 16384; x.cost = 1.5 * static_cast<double>(x.n) * x.trials; cells.push_back(x); x.lg_k = 15; x.n = 65536; x.cost = 1.5 * static_cast<double>(x.n) * x.trials; cells.push_back(x); }
+  }
+  for (auto& c : raw_cfgs)
+    for (int mi = 0; mi <= c.max_mi; ++mi) {
+      if (!RAW_MULT[mi]) continue;
+      Cell x; x.fam = F_ROLLUP; x.lg_k = c.lg_k; x.mi = mi; x.trials = c.trials; x.n = cardinality(c.lg_k, mi); x.cost = 1.3 * static_cast<double>(x.n) * x.trials + 6000.0 * x.trials; cells.push_back(x);
+    }
   for (int f = 0; f < F_HLL8_LARGE; ++f)
     for (auto& c : (f >= F_RAW ? raw_cfgs : cfgs))
       for (int mi = 0; mi <= c.max_mi; ++mi) {
@@ -96,6 +115,52 @@ void run_case(uint64_t idx, Rng& r) {
       hll_sketch s(cell.lg_k, cell.fam == F_HLL8_LARGE ? HLL_8 : TYPES[cell.fam]);
       for (uint64_t i = 0; i < n; ++i) s.update(key(i));
       tr.push_back(observe(s, n, fam, ctx));
+    } else if (cell.fam >= F_SETSRC_ALONE && cell.fam <= F_SETSRC_THEN_RAW) {
+      const uint8_t src_lg = static_cast<uint8_t>(20 + (t & 1));
+      hll_union u(cell.lg_k);
+      auto raw = [&](uint64_t from, uint64_t to) { for (uint64_t i = from; i < to; ++i) u.update(key(i)); };
+      auto set_source = [&](uint64_t from, uint64_t to) {
+        hll_sketch sk(src_lg, TYPES[t % 3]);
+        for (uint64_t i = from; i < to; ++i) sk.update(key(i));
+        VF_CHECK(sk.get_current_mode() == SET, "harness|set-source-not-in-set-mode", ctx + " coupons offered=" + std::to_string(to - from));
+        if (t & 2) u.update(std::move(sk)); else u.update(sk);
+      };
+      switch (cell.fam) {
+        case F_SETSRC_ALONE: set_source(0, n); break;
+        case F_SETSRC_AFTER_RAW: raw(0, 20); set_source(10, n); break;
+        case F_SETSRC_INTO_HLL_GADGET:
+          if (t & 1) { hll_sketch h(cell.lg_k, TYPES[(t / 2) % 3]); for (uint64_t i = 0; i < n / 4; ++i) h.update(key(i)); u.update(h); } else raw(0, n / 4);
+          set_source(n / 5, n); break;
+        default: set_source(0, n - n / 5); raw(n - n * 3 / 10, n); break;
+      }
+      tr.push_back(observe(u, n, fam, ctx));
+      const hll_sketch res = u.get_result(TYPES[(t / 4) % 3]);
+      const Chain rc = read_chain_c(res);
+      VF_CHECK(rc.unstable.empty() && same_chain(rc, tr.back().c), fam + "|union-object-vs-result|estimate-or-bounds-differ", ctx + " union: " + tr.back().c.to_string() + " result: " + rc.to_string());
+      if (u.get_current_mode() == HLL) { count("mc_set_source_gadget_promoted_trials"); if (u.is_out_of_order_flag()) any_ooo_union = true; }
+    } else if (cell.fam == F_ROLLUP) {
+      const uint64_t a_end = n - n * 2 / 5, b_begin = n * 2 / 5;
+      const uint8_t fine_lg = static_cast<uint8_t>(cell.lg_k + 2);
+      hll_sketch a(fine_lg, TYPES[t % 3]), b(fine_lg, TYPES[(t / 3) % 3]);
+      for (uint64_t i = 0; i < a_end; ++i) a.update(key(i));
+      for (uint64_t i = b_begin; i < n; ++i) b.update(key(i));
+      hll_union fine(fine_lg);
+      fine.update(a); fine.update(b);
+      hll_sketch mid = fine.get_result(TYPES[(t / 2) % 3]);      // out of order when in HLL mode
+      hll_union u(cell.lg_k);
+      switch (t & 3) {                                             // state of the receiving gadget
+        case 0: break;                                                                                          // empty
+        case 1: for (uint64_t i = 0; i < std::min<uint64_t>(5, n); ++i) u.update(key(i)); break;               // LIST
+        case 2: for (uint64_t i = 0; i < std::min<uint64_t>(n, 8 + (3ULL << cell.lg_k) / 64); ++i) u.update(key(i)); break;   // SET (if lg_k >= 8)
+        default: { hll_sketch h(cell.lg_k, TYPES[t % 3]); for (uint64_t i = 0; i < n / 3; ++i) h.update(key(i)); u.update(h); }   // HLL (or coupons for small n)
+      }
+      if (mid.get_current_mode() == HLL && mid.is_out_of_order_flag()) count(std::string("mc_rollup_ooo_operand_into_gadget_state") + std::to_string(t & 3));
+      if (t & 4) u.update(std::move(mid)); else u.update(mid);
+      tr.push_back(observe(u, n, fam, ctx));
+      const hll_sketch res = u.get_result(TYPES[(t / 4) % 3]);
+      const Chain rc = read_chain_c(res);
+      VF_CHECK(rc.unstable.empty() && same_chain(rc, tr.back().c), fam + "|union-object-vs-result|estimate-or-bounds-differ", ctx + " union: " + tr.back().c.to_string() + " result: " + rc.to_string());
+      if (u.get_current_mode() == HLL) { count_first_after_merge(tr.back().c); if (u.is_out_of_order_flag()) any_ooo_union = true; }
     } else if (cell.fam == F_HLL_REUSE) {
       hll_sketch s(cell.lg_k, TYPES[t % 3]);
       for (uint64_t j = 0; j < (4ULL << cell.lg_k); ++j) s.update(bij(~kb + j));
